@@ -138,8 +138,8 @@ var U = Universe{
 	Nicks:     []string{"k1", "k2"},
 	Roles:     []string{"r1", "r2", "r3"},
 	Badges:    []string{"b1", "b2", "b3"},
-	Notes:     []string{"o1", "o2", "o3"},
-	Tickets:   []string{"t1", "t2"},
+	Notes:     []string{"o1", "o2", "o3", "o4", "o5", "zn"},
+	Tickets:   []string{"t1", "t2", "zt"},
 	Groups:    []string{"g1", "g2", "g3", `g"4`},
 	BadgeNos:  []string{"bn1", "bn2", "bn3"},
 	Memos:     []string{"m1", "m2"},
@@ -362,8 +362,12 @@ func (g *gen) genOp() Op {
 		if ps := keysOf(sh.People); g.valid() && len(ps) > 0 {
 			return g.strp(pick(g.r, ps))
 		}
-		if g.r.IntN(5) == 0 {
+		switch g.r.IntN(10) {
+		case 0, 1:
 			return nil
+		case 2:
+			// a reference that happens to equal an id of the referencing store (never a person): still a missing target
+			return g.strp(pick(g.r, []string{"zn", "zt"}))
 		}
 		return g.strp(pick(g.r, g.people()))
 	}
@@ -651,10 +655,69 @@ func (g *gen) prologue() TxPlan {
 	return tx
 }
 
+// cascadeBurst: several referrers of one person are created and the person is deleted in the same transaction
+// (cascades and restrict checks then run over buckets already modified in this transaction).
+func (g *gen) cascadeBurst() (TxPlan, bool) {
+	ps := keysOf(g.shadow.People)
+	if len(ps) == 0 {
+		return TxPlan{}, false
+	}
+	p := pick(g.r, ps)
+	tx := TxPlan{Mode: "update"}
+	store := pick(g.r, []string{StNotes, StNotes, StBadges})
+	ids := absent(U.ByStore()[store], keysOfAny(g.shadow, store))
+	g.r.Shuffle(len(ids), func(i, j int) { ids[i], ids[j] = ids[j], ids[i] })
+	n := 1 + g.r.IntN(3)
+	for i := 0; i < n && i < len(ids); i++ {
+		if ids[i] == "zn" {
+			continue
+		}
+		tx.Ops = append(tx.Ops, Op{K: "create", S: store, Id: ids[i], Ref: g.strp(p)})
+	}
+	if g.r.IntN(3) == 0 {
+		if ex := keysOfAny(g.shadow, store); len(ex) > 0 {
+			tx.Ops = append(tx.Ops, Op{K: "delete", S: store, Id: pick(g.r, ex)})
+		}
+	}
+	del := Op{K: "delete", S: pick(g.r, []string{StPeople, StPeople, StStaff, StPX}), Id: p, Sys: g.shadow.People[p].Sys || g.r.IntN(4) == 0}
+	tx.Ops = append(tx.Ops, del)
+	return tx, true
+}
+
+func keysOfAny(m *Model, store string) []string {
+	switch store {
+	case StNotes:
+		return keysOf(m.Notes)
+	case StBadges:
+		return keysOf(m.Badges)
+	case StTickets:
+		return keysOf(m.Tickets)
+	}
+	return nil
+}
+
 func (g *gen) genTx() TxPlan {
 	tx := TxPlan{Mode: "update"}
 	if g.r.Float64() < g.cfg.BatchRate {
 		tx.Mode = "batch"
+	}
+	if (g.cfg.Prop == "C04" || g.cfg.Prop == "C06") && g.r.IntN(12) == 0 {
+		if btx, ok := g.cascadeBurst(); ok {
+			btx.Mode = tx.Mode
+			saved := g.shadow
+			g.shadow = saved.Clone()
+			good := true
+			for _, op := range btx.Ops {
+				if o := g.shadow.Apply(op, 0); !o.OK && !o.Skipped {
+					good = false
+					break
+				}
+			}
+			if !good {
+				g.shadow = saved
+			}
+			return btx
+		}
 	}
 	n := 1 + g.r.IntN(g.cfg.MaxOps)
 	// the shadow only guides argument choice; it assumes sequential execution of the plan as generated
@@ -890,6 +953,16 @@ func genConcurrent(profile, prop string, seed uint64, r *rand.Rand) *Plan {
 			}
 		}
 		p.Tasks = append(p.Tasks, tp)
+		if r.IntN(2) == 0 {
+			// a second client asking for the timeline id while snapshots are taken and restored
+			tt := TaskPlan{Name: "T"}
+			n := 1 + r.IntN(4)
+			for i := 0; i < n; i++ {
+				tt.Txs = append(tt.Txs, TxPlan{Mode: "idle", N: r.IntN(8)})
+				tt.Txs = append(tt.Txs, TxPlan{Mode: "timeline"})
+			}
+			p.Tasks = append(p.Tasks, tt)
+		}
 	}
 	p.MaxSteps = 120 + 16*p.NumOps()
 	return p
